@@ -313,7 +313,8 @@ def run(chk):
         resized = {k_: str(v).replace(str(nsym), "num_segments") for k_, v in resized.items()}
         # evaluate(): the workspace is sized for the current problem before any buffer is touched, and every buffer that
         # is read has been wholly defined earlier in the same evaluation on every path (wsdef.py)
-        spline_cls = next(x["ty"]["n"] for x in ws["fields"] if x["name"] == "spline")
+        from .common import workspace_spline_field
+        spline_cls = workspace_spline_field(F, cls + "::Workspace")[1]
         for f in [g for g in F.funcs(cls, "evaluate") if len(g["params"]) == 7]:
             inst = f["full"].split("evaluate")[1][:40]
             body = f["body"]["body"]
